@@ -31,6 +31,7 @@ PURE_METHODS = {'join', 'lower', 'upper', 'strip', 'split', 'casefold', 'title'}
 HEADER_SET = {'set_header', 'append_header'}
 MAX_PATHS = 4096
 MAX_DEPTH = 3
+_ORDERING = {ast.Lt: '<', ast.LtE: '<=', ast.Gt: '>', ast.GtE: '>='}
 
 
 def vkey(v) -> str:
@@ -297,6 +298,8 @@ class Executor:
         return self.truthy(self.eval(e, env, func, depth))
 
     def _compare(self, e: ast.Compare, env, func, depth) -> bool:
+        if all(type(o) in _ORDERING for o in e.ops):
+            return self._ordering(e, env, func, depth)
         if len(e.ops) != 1:
             raise UnknownIdiom('%s: chained comparison %s' % (func.qual, short(e)))
         op = e.ops[0]
@@ -322,6 +325,27 @@ class Executor:
             r = self.contains(a, b)
             return r if isinstance(op, ast.In) else not r
         raise UnknownIdiom('%s: comparison operator in %s' % (func.qual, short(e)))
+
+    def _ordering(self, e: ast.Compare, env, func, depth) -> bool:
+        """``a < b``, ``lo <= x <= hi`` (any chain of <, <=, >, >=): evaluated when every operand is a constant; otherwise ONE atom
+        ``cmp(a,'<=',x,'<=',b)`` whose value is not known - both outcomes are explored.  Whether such an atom is inside a rule's
+        vocabulary is the rule's decision (C20: only when every symbolic operand is an attribute of the response object)."""
+        vals = [self.eval(x, env, func, depth) for x in [e.left] + list(e.comparators)]
+        syms = [_ORDERING[type(o)] for o in e.ops]
+        if all(v[0] == 'const' for v in vals):
+            try:
+                for i, sname in enumerate(syms):
+                    a, b = vals[i][1], vals[i + 1][1]
+                    r = a < b if sname == '<' else a <= b if sname == '<=' else a > b if sname == '>' else a >= b
+                    if not r:
+                        return False
+                return True
+            except TypeError:
+                raise UnknownIdiom('%s: ordering comparison %s of constants of different types' % (func.qual, short(e)))
+        parts = [vkey(vals[0])]
+        for sname, v in zip(syms, vals[1:]):
+            parts += [repr(sname), vkey(v)]
+        return self.decide('cmp(%s)' % ','.join(parts))
 
     def _fold_str(self, e, func) -> Optional[str]:
         v = self.p.fold(func.module, e, func_owner_class(func), func)
